@@ -153,6 +153,7 @@ func execClient(h sink, s *state, op string) []line {
 	// what each block is expected to have had applied: path -> block-level op line
 	expect := map[string]string{}
 	var summary string
+	var resLines []line
 	switch w[0] {
 	case "cauto":
 		host, hd, num, owner := w[1], handleName(atoi(w[2])), atoi(w[3]), atoi(w[4])
@@ -234,6 +235,31 @@ func execClient(h sink, s *state, op string) []line {
 		}
 		unalloc, released, err := c.cl.ReleaseIPs(ctx, opts...)
 		summary = fmt.Sprintf("unalloc=%d released=%d", len(unalloc), len(released))
+		// client-visible result of a request that concerns ONE existing block = result of that block's release()
+		if len(per) == 1 {
+			for p, toks := range per {
+				if b := before[p]; b != nil {
+					res := "err"
+					if err == nil {
+						var os []int
+						for _, ip := range unalloc {
+							_, o := c.locate(ip.String())
+							os = append(os, o)
+						}
+						sort.Ints(os)
+						var ss []string
+						for _, o := range os {
+							ss = append(ss, strconv.Itoa(o))
+						}
+						res = "ok " + strings.Join(ss, ",")
+					}
+					resLines = append(resLines,
+						line{fmt.Sprintf("xload %d %d %s", len(b.Allocations), c.vnow, cdump(b)), "-"},
+						line{fmt.Sprintf("xgc %d", c.cd), "-"},
+						line{fmt.Sprintf("xrelres %d %s", c.cd, strings.Join(toks, " ")), res})
+				}
+			}
+		}
 		if err != nil {
 			summary = "err " + summary
 		}
@@ -330,8 +356,9 @@ func execClient(h sink, s *state, op string) []line {
 		panic("unknown client op " + op)
 	}
 	c.toVirtual(base) // idempotent
+	c.normaliseNewBlocks(before)
 	after := c.blocks()
-	out := []line{{op, "client"}}
+	out := append([]line{{op, "client"}}, resLines...)
 	_ = summary
 	h.Count("client-res:" + w[0] + ":" + strings.Fields(summary + " -")[0])
 	// explain every changed block to the model; track cooldown
@@ -391,6 +418,36 @@ func execClient(h sink, s *state, op string) []line {
 	return out
 }
 
+// newBlock seeds SequenceNumber with time.Now().UnixNano(): shift the sequence numbers of every block
+// created by this call so that its smallest one is 1000*(block id+1) (differences are kept), which
+// makes the generated operation lines reproducible.
+func (c *cstate) normaliseNewBlocks(before map[string]*model.AllocationBlock) {
+	for p, b := range c.blocks() {
+		if before[p] != nil {
+			continue
+		}
+		id := 0
+		for i, cidr := range c.env.Blocks {
+			if q, _ := model.KeyToDefaultPath(model.BlockKey{CIDR: model.PrefixFromIPNet(cidr)}); q == p {
+				id = i
+			}
+		}
+		min := b.SequenceNumber
+		for _, v := range b.SequenceNumberForAllocation {
+			if v < min {
+				min = v
+			}
+		}
+		target := uint64(1000 * (id + 1))
+		b.SequenceNumber = b.SequenceNumber - min + target
+		for k, v := range b.SequenceNumberForAllocation {
+			b.SequenceNumberForAllocation[k] = v - min + target
+		}
+		nb, _ := json.Marshal(b)
+		c.env.S.RawPutKeepRev(p, string(nb))
+	}
+}
+
 func (c *cstate) toVirtual(base time.Time) {
 	if !c.real {
 		return
@@ -436,6 +493,8 @@ func genClientCase(h *rt.H) []string {
 			for o := range b.Allocations {
 				if lv, a := live(b, o); lv && h.Chance(0.4) {
 					snaps = append(snaps, snap{id, o, b.GetSequenceNumberForOrdinal(o), handleOf(a)})
+				} else if !lv && cooling(b, o) && h.Chance(0.5) {
+					snaps = append(snaps, snap{id, o, b.GetSequenceNumberForOrdinal(o), ""})
 				}
 			}
 		}
@@ -482,6 +541,23 @@ func genClientCase(h *rt.H) []string {
 			emit("crel " + strings.Join(toks, " "))
 		case x < 16:
 			emit(fmt.Sprintf("crelh %d", 1+h.Intn(3)))
+		case x < 17:
+			// an address in cooldown, named with the sequence number stamped at its release, after the cooldown
+			// expired and before anybody rewrote the block: the read-side garbage collection must clear it first
+			var cs []snap
+			for _, sn := range snaps {
+				if sn.h == "" {
+					cs = append(cs, sn)
+				}
+			}
+			if len(cs) == 0 {
+				continue
+			}
+			sn := cs[len(cs)-1-h.Intn((len(cs)+1)/2)]
+			if cd > 0 {
+				emit(fmt.Sprintf("ctick %d", cd+h.Intn(2)))
+			}
+			emit(fmt.Sprintf("crel %d:%d/%d/s:", sn.blk, sn.ord, sn.seq))
 		default:
 			d := rt.Pick(h, []int{0, 1, 1, 2, cd, cd + 1})
 			if d < 0 {
